@@ -48,3 +48,10 @@ CHECKS = {
         assumptions=COMMON_ASSUME + ["points closer than max(result tolerance,1e-6) to an input surface are not judged"],
     ),
 }
+
+# per-property fragments (one file per property, so several people can work in parallel)
+import glob as _glob, os as _os
+for _f in sorted(_glob.glob(_os.path.join(_os.path.dirname(_os.path.abspath(__file__)), "checks.d", "C*.py"))):
+    _ns = dict(S=S, COMMON_ASSUME=COMMON_ASSUME)
+    exec(compile(open(_f).read(), _f, "exec"), _ns)
+    CHECKS[_os.path.basename(_f)[:-3]] = _ns["CHECK"]
